@@ -196,11 +196,12 @@ fn one(rng: &mut Rng, out: &mut Out) {
             };
             let active = rng.chance(3, 4);
             let r = if active { pure::journal_encode_active(gen, &exts) } else { pure::journal_encode_clear(gen) };
+            let verdict = journal_fits_verdict(&r, exts.len());
             let res = match r {
                 Ok(img) => format!("ok {:016x} {}", fnv1a(&img), img.len()),
                 Err(_) => "err".to_string(),
             };
-            out.emit(&format!("codec jenc {gen} {} {}", active as u8, exts_str(&exts)), &res);
+            out.emit3(&format!("codec jenc {gen} {} {}", active as u8, exts_str(&exts)), &res, &verdict);
         }
         6 | 7 => {
             // decode: two slots built from the encoders, then damaged
@@ -368,6 +369,36 @@ fn one(rng: &mut Rng, out: &mut Out) {
     }
 }
 
+/// The documented layout gives a journal slot three blocks (blocks 1..4 and 4..7, the backup
+/// metadata copy sits in block 7): whatever image the encoder accepts must fit.
+fn journal_fits_verdict(r: &feoxdb::Result<Vec<u8>>, entries: usize) -> String {
+    match r {
+        Ok(img) if img.len() > 3 * 4096 => format!("FAIL journal-image-exceeds-its-slot entries={entries} bytes={}", img.len()),
+        _ => "ok".to_string(),
+    }
+}
+
+/// Directed: the largest transactions the encoder accepts (pairwise non-adjacent one-block extents).
+fn journal_capacity_cases(out: &mut Out) {
+    let mut accepted = 0usize;
+    for n in 1..=2100usize {
+        let exts: Vec<(u64, usize)> = (0..n as u64).map(|i| (16 + 2 * i, 1usize)).collect();
+        if pure::journal_encode_active(7, &exts).is_ok() {
+            accepted = n;
+        }
+    }
+    for n in [accepted.saturating_sub(1).max(1), accepted.max(1), accepted + 1] {
+        let exts: Vec<(u64, usize)> = (0..n as u64).map(|i| (16 + 2 * i, 1usize)).collect();
+        let r = pure::journal_encode_active(7, &exts);
+        let verdict = journal_fits_verdict(&r, n);
+        let res = match r {
+            Ok(img) => format!("ok {:016x} {}", fnv1a(&img), img.len()),
+            Err(_) => "err".to_string(),
+        };
+        out.emit3(&format!("codec jenc 7 1 {}", exts_str(&exts)), &res, &verdict);
+    }
+}
+
 pub fn run(opts: &Opts) -> i32 {
     let dir = opts.str("out", "/verif/.build/cases/codec");
     let seed = opts.u64("seed", 1);
@@ -380,6 +411,9 @@ pub fn run(opts: &Opts) -> i32 {
             let mut out = Out::new(&dir, &format!("s{sh}"));
             let mut rng = Rng::new(seed.wrapping_mul(31337).wrapping_add(sh));
             fold_zero_cases(&mut rng, &mut out, if sh < 6 { 3 } else { 0 });
+            if sh == 0 {
+                journal_capacity_cases(&mut out);
+            }
             for _ in 0..per {
                 one(&mut rng, &mut out);
             }
